@@ -7,3 +7,313 @@ from pyvc.values import *   # noqa
 CONTRACTS = []
 CLASS_SPECS = {}
 LEMMAS = []
+
+T = 'pywbem/_cim_types.py::'
+O = 'pywbem/_cim_obj.py::'
+
+CIM_CLASS_TYPE = {'Uint8': 'uint8', 'Uint16': 'uint16', 'Uint32': 'uint32', 'Uint64': 'uint64',
+                  'Sint8': 'sint8', 'Sint16': 'sint16', 'Sint32': 'sint32', 'Sint64': 'sint64',
+                  'Real32': 'real32', 'Real64': 'real64', 'CIMDateTime': 'datetime', 'Char16': 'char16'}
+for cls, name in CIM_CLASS_TYPE.items():
+    CONTRACTS.append(Contract(T + 'cimtype', label=cls, params={'obj': Ref(cls)},
+                              ensures=[('type-name', f'result == {name!r}')], raises={}))
+CONTRACTS.append(Contract(T + 'cimtype', label='bool', params={'obj': Bool},
+                          ensures=[('type-name', "result == 'boolean'")], raises={}))
+CONTRACTS.append(Contract(T + 'cimtype', label='str', params={'obj': Str},
+                          ensures=[('type-name', "result == 'string'")], raises={}))
+CONTRACTS.append(Contract(T + 'cimtype', label='python numbers and None', params={'obj': Union(Int, Float, NoneT)},
+                          ensures=[('never-returns', 'False')], raises={'TypeError': Raises()}))
+CONTRACTS.append(Contract(T + 'cimtype', label='datetime objects', params={'obj': Union(Ref('datetime.datetime'), Ref('datetime.timedelta'))},
+                          ensures=[('type-name', "result == 'datetime'")], raises={}))
+CONTRACTS.append(Contract(T + 'cimtype', label='CIM objects', params={'obj': Union(Ref('CIMInstanceName'), Ref('CIMInstance'), Ref('CIMClass'))},
+                          ensures=[('type-name', "result == ('reference' if isinstance(obj, CIMInstanceName) else 'string')")], raises={}))
+CONTRACTS.append(Contract(T + 'cimtype', label='other objects', params={'obj': Union(Ref('CIMClassName'), Ref('CIMProperty'), TupleOf(Int))},
+                          ensures=[('never-returns', 'False')], raises={'TypeError': Raises()}))
+
+ELEM = Union(Ref('Uint8'), Ref('Sint64'), Ref('Real32'), Ref('CIMDateTime'), Ref('Char16'), Str, Bool, Ref('CIMInstanceName'), Ref('CIMInstance'))
+cimtype_elem = Contract(T + 'cimtype', returns=Str,
+                        requires=[('element-has-a-CIM-type', 'isinstance(obj, (CIMType, str, bool, CIMInstanceName, CIMInstance))')],
+                        ensures=[('type-name', "result == ('boolean' if isinstance(obj, bool) else 'reference' if isinstance(obj, CIMInstanceName) "
+                                  "else obj.cimtype if isinstance(obj, CIMType) else 'string')")],
+                        raises={}, notes='the scalar contracts of cimtype proved above')
+CONTRACTS.append(Contract(T + 'cimtype', label='array', params={'obj': ListOf(ELEM)},
+                          callees={'cimtype': cimtype_elem},
+                          ensures=[('type-of-the-first-element', "len(old(obj)) > 0 and result == cimtype(old(obj)[0])")],
+                          raises={'ValueError': Raises(post=[('only-empty-array', 'len(old(obj)) == 0')])}))
+
+TYPE_CLASS = {'boolean': 'bool', 'string': 'str', 'char16': 'str', 'datetime': 'CIMDateTime', 'reference': 'CIMInstanceName',
+              'uint8': 'Uint8', 'uint16': 'Uint16', 'uint32': 'Uint32', 'uint64': 'Uint64',
+              'sint8': 'Sint8', 'sint16': 'Sint16', 'sint32': 'Sint32', 'sint64': 'Sint64',
+              'real32': 'Real32', 'real64': 'Real64'}
+CONTRACTS.append(Contract(
+    T + 'type_from_name', params={'type_name': Str},
+    ensures=[(f'{n}-gives-{c}', f'implies(type_name == {n!r}, issubclass(result, {c}) and issubclass({c}, result))') for n, c in TYPE_CLASS.items()] +
+            [('only-CIM-type-names', 'type_name in (' + ', '.join(repr(n) for n in TYPE_CLASS) + ')')],
+    raises={'ValueError': Raises(post=[('only-unknown-names', 'type_name not in (' + ', '.join(repr(n) for n in TYPE_CLASS) + ')')])}))
+
+SCALAR = Union(Ref('Uint8'), Ref('Sint64'), Ref('Real32'), Ref('Real64'), Ref('CIMDateTime'), Ref('Char16'), Str, Bool, Ref('CIMInstanceName'),
+               Ref('CIMInstance'), Ref('CIMClass'), Ref('datetime.datetime'), Ref('datetime.timedelta'),
+               Int, Float, NoneT, Ref('CIMClassName'))
+HAS_TYPE = '(CIMType, str, bool, CIMInstanceName, CIMInstance, CIMClass)'
+
+
+def TYPE_OF(e):
+    return (f"('boolean' if isinstance({e}, bool) else 'reference' if isinstance({e}, CIMInstanceName) "
+            f"else {e}.cimtype if isinstance({e}, CIMType) else 'datetime' if isinstance({e}, (datetime, timedelta)) else 'string')")
+
+
+CONTRACTS.append(Contract(
+    O + '_infer_type', label='scalar', params={'value': SCALAR, 'element_kind': Str, 'element_name': Str},
+    ensures=[('has-a-CIM-type', f'isinstance(value, {HAS_TYPE}) or isinstance(value, (datetime, timedelta))'),
+             ('type-name', f'result == {TYPE_OF("value")}')],
+    raises={'ValueError': Raises(post=[('only-None-or-untyped', f'value is None or not (isinstance(value, {HAS_TYPE}) or isinstance(value, (datetime, timedelta)))')])}))
+CONTRACTS.append(Contract(
+    O + '_infer_is_array', params={'value': Union(NoneT, ListOf('int'), ListOf('str'), Str, Int, Bool, Ref('Uint8'), TupleOf(Int, Int))},
+    ensures=[('list-iff-array', 'result == isinstance(value, list)'), ('None-is-scalar', 'implies(value is None, result is False)')],
+    raises={}))
+
+ANY_TYPE = Union(*[Lit(n) for n in TYPE_CLASS])
+CONTRACTS.append(Contract(
+    O + 'cimvalue', label='None has every type', params={'value': NoneT, 'type': Union(Str, NoneT)},
+    ensures=[('None-stays-None', 'result is None')], raises={}))
+CONTRACTS.append(Contract(
+    O + 'cimvalue', label="type 'boolean'", params={'value': Union(Bool, Int, Str, TupleOf(), TupleOf(Int), Ref('Uint8')), 'type': Lit('boolean')},
+    ensures=[('result-is-of-the-named-CIM-type', 'isinstance(result, bool)'),
+             ('python-truth-value', 'result == bool(value)')],
+    raises={}))
+for tn in ('string', 'char16'):
+    CONTRACTS.append(Contract(
+        O + 'cimvalue', label=f"type '{tn}'", params={'value': Union(Str, Ref('Char16')), 'type': Lit(tn)},
+        ensures=[('result-is-of-the-named-CIM-type', 'isinstance(result, str)'),
+                 ('value-kept', 'result == value')],
+        raises={}))
+
+dt_init_stub = Contract(T + 'CIMDateTime.__init__', raises={'ValueError': Raises(), 'TypeError': Raises()}, trusted=True,
+                        notes='CIMDateTime(x): ValueError / TypeError only (its string side is under contract below)')
+CONTRACTS.append(Contract(
+    O + 'cimvalue', label="type 'datetime'",
+    params={'value': Union(Str, Ref('CIMDateTime'), Ref('datetime.datetime'), Ref('datetime.timedelta'), Int), 'type': Lit('datetime')},
+    callees={'CIMDateTime.__init__': dt_init_stub},
+    ensures=[('result-is-of-the-named-CIM-type', 'isinstance(result, CIMDateTime)'),
+             ('a-CIMDateTime-is-passed-through', 'implies(isinstance(value, CIMDateTime), result is value)')],
+    raises={'ValueError': Raises(), 'TypeError': Raises()}))
+from_uri_stub = Contract(O + 'CIMInstanceName.from_wbem_uri', returns=Ref('CIMInstanceName'), raises={'ValueError': Raises()}, trusted=True,
+                         notes='CIMInstanceName.from_wbem_uri(str): a CIMInstanceName or ValueError (C07)')
+CONTRACTS.append(Contract(
+    O + 'cimvalue', label="type 'reference'",
+    params={'value': Union(Str, Ref('CIMInstanceName'), Ref('CIMClassName'), Int, Bool, Ref('CIMInstance'), Ref('Uint8'), TupleOf(Str)), 'type': Lit('reference')},
+    callees={'from_wbem_uri': from_uri_stub},
+    ensures=[('result-is-of-the-named-CIM-type', 'isinstance(result, (CIMInstanceName, CIMClassName))'),
+             ('paths-are-passed-through', 'implies(isinstance(value, (CIMInstanceName, CIMClassName)), result is value)'),
+             ('text-is-parsed-as-instance-path', 'implies(isinstance(value, str), isinstance(result, CIMInstanceName))')],
+    raises={'ValueError': Raises(post=[('only-text', 'isinstance(value, str)')]),
+            'TypeError': Raises(post=[('only-other-types', 'not isinstance(value, (str, CIMInstanceName, CIMClassName))')])}))
+
+cimvalue_uint8 = Contract(O + 'cimvalue', returns=Opt(Ref('Uint8')),
+                          ensures=[('item-typed', 'implies(value is None, result is None) and implies(value is not None, '
+                                    'isinstance(result, Uint8) and intval(result) == intval(value) and 0 <= intval(result) <= 255)')],
+                          raises={'ValueError': Raises(post=[('only-out-of-range', 'value is not None and (intval(value) < 0 or intval(value) > 255)')])},
+                          notes="cimvalue(int or None, 'uint8') as proved in C06.py plus the None contract above")
+CONTRACTS.append(Contract(
+    O + 'cimvalue', label="array of 'uint8'",
+    params={'value': ListOf(Opt(Int)), 'type': Lit('uint8')},
+    callees={'cimvalue': cimvalue_uint8},
+    ensures=[('same-length', 'len(result) == len(value)'),
+             ('a-new-list', 'result is not value'),
+             ('items-are-None-or-of-the-item-type', 'forall(lambda i: result[i] is None or isinstance(result[i], Uint8), 0, len(result))')],
+    raises={'ValueError': Raises()}))
+CONTRACTS.append(Contract(
+    O + 'cimvalue', label='type inferred (None)',
+    params={'value': Union(Ref('Uint8'), Ref('Sint64'), Ref('Real32'), Ref('CIMDateTime'), Str, Bool, Ref('CIMInstanceName'), Int, Float), 'type': NoneT},
+    ensures=[('a-CIM-typed-value-is-returned-as-it-is', 'result is value'),
+             ('not-a-python-number', 'isinstance(value, (CIMType, str, bool, CIMInstanceName))')],
+    raises={'TypeError': Raises(post=[('only-python-numbers', 'isinstance(value, (int, float)) and not isinstance(value, (CIMType, bool))')])}))
+# real32/real64: only the pass-through of a value that already has the type (construction from float/int/str is float territory:
+# the engine has no model of float-derived classes - "raises:TypeError@type_obj(value)" is its answer for Real32(value))
+for tn, cls in (('real32', 'Real32'), ('real64', 'Real64')):
+    CONTRACTS.append(Contract(
+        O + 'cimvalue', label=f"type '{tn}' (value of the type)", params={'value': Ref(cls), 'type': Lit(tn)},
+        ensures=[('a-value-of-the-type-is-passed-through', 'result is value')], raises={}))
+REFUTED_ON_THE_UNCHANGED_TREE = []
+REFUTED_ON_THE_UNCHANGED_TREE.append(Contract(
+    O + 'cimvalue', label="type 'string' for a non-string value",
+    params={'value': Union(Str, Int, Bool, Ref('Uint8')), 'type': Lit('string')},
+    ensures=[('result-is-of-the-named-CIM-type', 'isinstance(result, str)')],
+    raises={'ValueError': Raises(), 'TypeError': Raises()}))
+
+
+# ---------------------------------------------------------------- DSP0004 datetime languages (5.2.4, transcribed)
+# timestamp  yyyymmddhhmmss.mmmmmmsutc   s = '+' | '-', utc = three digits (minutes), 25 characters
+# interval   ddddddddhhmmss.mmmmmm:000   25 characters
+# "Fields that are not significant shall be replaced with asterisks ... only for an adjacent set of fields starting with
+# the least significant one (mmmmmm); the granularity is the entire field, except mmmmmm (single digits); the UTC offset
+# shall not contain asterisks."
+def _bodies(widths):
+    """the 21 body characters: digits, then asterisks from a field boundary (or a microsecond digit) to the end"""
+    total = sum(widths)                                   # 14
+    alts = [r'[0-9]{%d}\.[0-9]{6}' % total]
+    alts += [r'[0-9]{%d}\.[0-9]{%d}\*{%d}' % (total, k, 6 - k) for k in range(5, 0, -1)]
+    alts += [r'[0-9]{%d}\.\*{6}' % total]
+    start = total
+    for w in reversed(widths):
+        start -= w
+        alts.append((r'[0-9]{%d}' % start if start else '') + r'\*{%d}\.\*{6}' % (total - start))
+    return '(?:' + '|'.join(alts) + ')'
+
+
+TS_WIDTHS, IV_WIDTHS = (4, 2, 2, 2, 2, 2), (8, 2, 2, 2)
+TS_DSP0004 = _bodies(TS_WIDTHS) + r'[+-][0-9]{3}'
+IV_DSP0004 = _bodies(IV_WIDTHS) + r':000'
+# the same without the asterisk rules: what the two patterns of the class are documented to stand for
+TS_SHAPE = r'[0-9*]{14}\.[0-9*]{6}[+-][0-9]{3}'
+IV_SHAPE = r'[0-9*]{14}\.[0-9*]{6}:000'
+
+
+def fold_class_attr(repo, modname, clsname, attr):
+    """Constant-fold a class-level assignment of the real source (fold_const does module-level names)."""
+    import ast as _ast
+    from pyvc.engine import Engine
+    from pyvc.core import State
+    from pyvc.exec import Frame
+    from pyvc.repo import FuncInfo
+    ex = Engine(repo)
+    ex.st = State([])
+    mod = repo.module(modname)
+    dummy = FuncInfo(mod, _ast.parse('def f(): pass').body[0], None)
+    ex.frames = [Frame(dummy, {}, mod)]
+    return ex.getattr(ex.global_value(mod, clsname), attr)
+
+
+def _dt_patterns(repo):
+    ts = fold_class_attr(repo, 'pywbem._cim_types', 'CIMDateTime', '_timestamp_pattern').obj
+    iv = fold_class_attr(repo, 'pywbem._cim_types', 'CIMDateTime', '_interval_pattern').obj
+    return ts, iv
+
+
+def _mk_replay(s, fn):
+    def replay(model):
+        w = model.eval(s, model_completion=True).as_string()
+        return fn(w)
+    return replay
+
+
+def lemma_datetime_patterns_accept_DSP0004(repo):
+    """Every DSP0004 timestamp string is taken by CIMDateTime._timestamp_pattern.search (the first branch of __init__), every
+    DSP0004 interval string is refused by it and taken by _interval_pattern.search (the second branch); the two DSP0004
+    languages are disjoint and all their strings have 25 characters."""
+    import re
+    import z3
+    from pyvc.core import Obligation
+    from pyvc import regex as rx
+    ts, iv = _dt_patterns(repo)
+    s = z3.String('s')
+    in_ts, in_iv = z3.InRe(s, ts.language('search')), z3.InRe(s, iv.language('search'))
+    dsp_ts = z3.InRe(s, rx.compile_re(TS_DSP0004).language('fullmatch'))
+    dsp_iv = z3.InRe(s, rx.compile_re(IV_DSP0004).language('fullmatch'))
+    P = 'pywbem/_cim_types.py::CIMDateTime.'
+
+    def real(cre, w):
+        return re.compile(cre.pattern, cre.flags).search(w) is not None
+    return [
+        Obligation(P + '_timestamp_pattern::takes-every-DSP0004-timestamp', 'lemma', [dsp_ts], in_ts, 0,
+                   {'expr': 'L(DSP0004 timestamp) <= L(_timestamp_pattern.search)', 'var': s,
+                    'replay_fn': _mk_replay(s, lambda w: {'confirmed': not real(ts, w), 'witness': w})}),
+        Obligation(P + '_timestamp_pattern::refuses-every-DSP0004-interval', 'lemma', [dsp_iv], z3.Not(in_ts), 0,
+                   {'expr': 'L(DSP0004 interval) & L(_timestamp_pattern.search) == {}', 'var': s,
+                    'replay_fn': _mk_replay(s, lambda w: {'confirmed': real(ts, w), 'witness': w})}),
+        Obligation(P + '_interval_pattern::takes-every-DSP0004-interval', 'lemma', [dsp_iv], in_iv, 0,
+                   {'expr': 'L(DSP0004 interval) <= L(_interval_pattern.search)', 'var': s,
+                    'replay_fn': _mk_replay(s, lambda w: {'confirmed': not real(iv, w), 'witness': w})}),
+        Obligation('DSP0004::datetime::timestamp-and-interval-languages-are-disjoint', 'lemma', [], z3.Not(z3.And(dsp_ts, dsp_iv)), 0,
+                   {'expr': 'L(DSP0004 timestamp) & L(DSP0004 interval) == {}'}),
+        Obligation('DSP0004::datetime::25-characters', 'lemma', [z3.Or(dsp_ts, dsp_iv)], z3.Length(s) == 25, 0,
+                   {'expr': 's in L(DSP0004 timestamp) | L(DSP0004 interval) implies len(s) == 25'}),
+    ]
+
+
+def _shape_obligations(repo, which):
+    import re
+    import z3
+    from pyvc.core import Obligation
+    from pyvc import regex as rx
+    ts, iv = _dt_patterns(repo)
+    s = z3.String('s')
+    P = 'pywbem/_cim_types.py::CIMDateTime.'
+    out = {}
+    for name, cre, shape in (('_timestamp_pattern', ts, TS_SHAPE), ('_interval_pattern', iv, IV_SHAPE)):
+        def taken(w, cre=cre):
+            return re.compile(cre.pattern, cre.flags).search(w) is not None
+        out[name, 'shape'] = Obligation(
+            P + name + '::a-25-character-string-it-takes-has-the-DSP0004-shape', 'lemma',
+            [z3.InRe(s, cre.language('search')), z3.Length(s) == 25], z3.InRe(s, rx.compile_re(shape).language('fullmatch')), 0,
+            {'expr': f'L({name}.search) & (25 characters) <= L({shape!r})', 'var': s,
+             'replay_fn': _mk_replay(s, lambda w, taken=taken, shape=shape: {
+                 'confirmed': taken(w) and len(w) == 25 and re.fullmatch(shape, w) is None, 'witness': w})})
+        out[name, 'length'] = Obligation(
+            P + name + '::takes-only-25-character-strings', 'lemma', [z3.InRe(s, cre.language('search'))], z3.Length(s) == 25, 0,
+            {'expr': f's in L({name}.search) implies len(s) == 25', 'var': s,
+             'replay_fn': _mk_replay(s, lambda w, taken=taken: {'confirmed': taken(w) and len(w) != 25, 'witness': w})})
+    return [out[k] for k in which]
+
+
+def lemma_interval_pattern_shape(repo):
+    """A 25-character string taken by _interval_pattern.search has the DSP0004 interval shape: 14 digits-or-asterisks, '.',
+    6 digits-or-asterisks, ':000'."""
+    return _shape_obligations(repo, [('_interval_pattern', 'shape')])
+
+
+def lemma_datetime_patterns_accept_only_the_DSP0004_shape(repo):
+    """REFUTED ON THE UNCHANGED TREE.  What _timestamp_pattern.search / _interval_pattern.search take is a DSP0004-shaped
+    string of 25 characters: (a) nothing follows the 25 characters - refuted for both patterns, they are used with .search()
+    and have no end anchor: CIMDateTime('20180911124613.128000+000XYZ') and CIMDateTime('00000001123456.000000:000junk') are
+    accepted; (b) the sign of a timestamp is '+' or '-' - refuted: the class [+|-] also contains the bar,
+    CIMDateTime('20180911124613.128000|000') is accepted (as +000)."""
+    return _shape_obligations(repo, [('_timestamp_pattern', 'length'), ('_interval_pattern', 'length'), ('_timestamp_pattern', 'shape')])
+
+
+LEMMAS = [lemma_datetime_patterns_accept_DSP0004, lemma_interval_pattern_shape]
+REFUTED_LEMMAS_ON_THE_UNCHANGED_TREE = [lemma_datetime_patterns_accept_only_the_DSP0004_shape]
+
+import os as _os
+if _os.environ.get('C06_DT_WITH_REFUTED'):        # to reproduce the refutations: C06_DT_WITH_REFUTED=1 ./check C06 -v
+    CONTRACTS.extend(REFUTED_ON_THE_UNCHANGED_TREE)
+    LEMMAS.extend(REFUTED_LEMMAS_ON_THE_UNCHANGED_TREE)
+
+DT_OBJ = Obj('CIMDateTime', __precision=Opt(Int), __timedelta=Opt(Ref('datetime.timedelta')), __datetime=Opt(Ref('datetime.datetime')))
+CONTRACTS.append(Contract(T + 'CIMDateTime.precision', params={'self': DT_OBJ},
+                          ensures=[('stored-precision', 'result is self.__precision')], raises={}))
+CONTRACTS.append(Contract(T + 'CIMDateTime.is_interval', params={'self': DT_OBJ},
+                          ensures=[('interval-iff-a-timedelta-is-held', 'result == (self.__timedelta is not None)')], raises={}))
+TO_INT = dict(value_str=Str, min_value=Int, field_name=Str, dtarg=Str)
+for w in (2, 4, 8):
+    CONTRACTS.append(Contract(
+        T + 'CIMDateTime._to_int', label=f'whole field of {w} characters (rep_digit None)',
+        params=dict(TO_INT, rep_digit=Lit(None)),
+        requires=[f"inre(value_str, '[0-9*]{{{w}}}')"],
+        ensures=[('digits-give-their-value', "implies('*' not in value_str, result == str2int(value_str, 10))"),
+                 ('all-asterisks-give-the-minimum', "implies('*' in value_str, result == min_value and inre(value_str, '[*]+'))")],
+        raises={'ValueError': Raises(post=[('only-partly-asterisked', "not inre(value_str, '[0-9]+|[*]+')")])},
+    ))
+
+datetime_stub = Contract('external::datetime.datetime',
+                         sig=['year', 'month', 'day', 'hour=0', 'minute=0', 'second=0', 'microsecond=0', 'tzinfo=None'],
+                         returns=Ref('datetime.datetime'), raises={'ValueError': Raises()}, trusted=True,
+                         notes='datetime.datetime(ints..., tzinfo): a datetime object or ValueError (field out of range)')
+timedelta_stub = Contract('external::datetime.timedelta',
+                          sig=['days=0', 'seconds=0', 'microseconds=0', 'milliseconds=0', 'minutes=0', 'hours=0', 'weeks=0'],
+                          returns=Ref('datetime.timedelta'), raises={}, trusted=True,
+                          notes='datetime.timedelta(days<10**8, hours<100, minutes<100, seconds<100, microseconds<10**6) does not raise '
+                                '(OverflowError needs |days| > 999999999)')
+to_int_c = Contract(
+    T + 'CIMDateTime._to_int', returns=Int,
+    requires=[('a-field-of-digits-or-asterisks',
+               "inre(value_str, '[0-9*]{2}|[0-9*]{4}|[0-9*]{8}') if rep_digit is None else (rep_digit == '0' and inre(value_str, '[0-9*]{6}'))")],
+    raises={'ValueError': Raises(post=[('only-misplaced-asterisks',
+                                        "not inre(value_str, '[0-9]+|[*]+') if rep_digit is None else not inre(value_str, '[0-9]*[*]*')")])},
+    notes='_to_int as proved above for the field widths 2, 4, 8 (whole-field asterisks) and 6 (digit granularity)')
+CONTRACTS.append(Contract(
+    T + 'CIMDateTime.__init__', label='any string',
+    params={'self': Obj('CIMDateTime'), 'dtarg': Str},
+    callees={'datetime.datetime': datetime_stub, 'datetime.timedelta': timedelta_stub, '_to_int': to_int_c},
+    ensures=[('x', 'True')],
+    raises={'ValueError': Raises()}))
